@@ -86,6 +86,8 @@ def gen_program(rng, cyclic=True, negation=True, ads=True, evidence=True, max_le
             else:
                 p = rng.choice(cands_pos)
                 args = tuple((rng.choice(VARS) if rng.random() < 0.9 else rng.choice(consts)) for _ in range(preds[p][0]))
+                if len(args) == 2 and rng.random() < 0.15:
+                    args = (args[0], args[0])     # repeated variable in a call: p(X,X) vs p(X,Y) are different table entries
                 bound.update(x for x in args if x in VARSET)
                 body.append(("pos", (p, args)))
         if negation and body and rng.random() < 0.08:
@@ -142,6 +144,23 @@ def gen_program(rng, cyclic=True, negation=True, ads=True, evidence=True, max_le
             stmts.append(("rule", (name, ()), [("pos", (h, (rng.choice(consts),)))]))
         elif har == 1:
             stmts.append(("rule", (name, ("X",)), [("pos", (h, ("X",)))]))
+    # alias predicates: `al :- q(c).` / `nal :- \\+q(c).` share (the negation of) an existing ground node
+    aliases = []
+    for k in range(2):
+        if rng.random() < 0.25:
+            q = rng.choice([p for p in preds if not p.startswith("al")])
+            ar, lvl = preds[q]
+            args = tuple(rng.choice(consts) for _ in range(ar))
+            name = "al%d" % k
+            neg = rng.random() < 0.5
+            preds[name] = (0, max_level + 1)
+            if neg:
+                # `nal :- \+q(c)` alone is not range-restriction relevant (ground), level above everything: stratified
+                stmts.append(("rule", (name, ()), [("neg", (q, args))]))
+            else:
+                stmts.append(("rule", (name, ()), [("pos", (q, args))]))
+            aliases.append((name, (q, args), neg))
+            der.append(name)
     # every predicate that can be called must have at least one clause (otherwise UnknownClause: wasted case)
     defined = set()
     for s in stmts:
@@ -167,6 +186,16 @@ def gen_program(rng, cyclic=True, negation=True, ads=True, evidence=True, max_le
     P = dict(consts=consts, preds=preds, stmts=stmts, queries=qs, evidence=[])
     if evidence and rng.random() < 0.5:
         add_evidence(P, rng, inconsistent=rng.random() < 0.06)
+        if aliases and rng.random() < 0.5:
+            # evidence on an alias and on the atom it stands for (same ground node, possibly negated): consistent values
+            # from the sampled world, or - 30% - contradictory values (evidence of probability 0)
+            name, at, neg = rng.choice(aliases)
+            ev = dict((a, v) for a, v in P["evidence"])
+            base = ev.get(at, rng.random() < 0.5)
+            alias_val = (not base) if neg else base
+            if rng.random() < 0.3:
+                alias_val = not alias_val
+            P["evidence"] = [(a, v) for a, v in P["evidence"] if a != at and a != (name, ())] + [(at, base), ((name, ()), alias_val)]
     return P
 
 
@@ -185,9 +214,16 @@ def add_evidence(P, rng, inconsistent=False):
     m = lfp(rules, P["preds"], chosen)
     allp = list(P["preds"])
     evs = []
-    for _ in range(rng.randint(1, 2)):
+    for _ in range(rng.randint(1, 3)):
         p = rng.choice(allp)
         args = tuple(rng.choice(P["consts"]) for _ in range(P["preds"][p][0]))
+        if evs and rng.random() < 0.5:
+            # an atom related to the previous evidence atom by a ground rule (head <-> body): evidence on a disjunction
+            # and on one of its disjuncts, on a conjunction and a conjunct, ...
+            prev = evs[-1][0]
+            rel = [a for h, b, c in rules if h == prev for t, a in b] + [h for h, b, c in rules if any(a == prev for t, a in b)]
+            if rel:
+                p, args = rng.choice(rel)
         val = ((p, args) in m)
         if inconsistent:
             val = rng.random() < 0.5
